@@ -238,6 +238,12 @@ def observe(kind, h, universe, probe_keys, flip=0, sizes=None):
         o[f"degdist/size={s}"] = repr(r) if _e(r) else {str(d): c for d, c in r.items()}
     if kind == "D":
         from hypergraphx.measures.directed import in_degree, out_degree
+        from hypergraphx.measures.directed.degree import in_degree_sequence, out_degree_sequence
+
+        r = q(in_degree_sequence, h)
+        o["in_degseq"] = repr(r) if _e(r) else {tag(n): d for n, d in r.items()}
+        r = q(out_degree_sequence, h)
+        o["out_degseq"] = repr(r) if _e(r) else {tag(n): d for n, d in r.items()}
 
         o["sources"] = repr(r) if _e(r := q(h.get_sources)) else sorted(nodes_str(x) for x in r)
         o["targets"] = repr(r) if _e(r := q(h.get_targets)) else sorted(nodes_str(x) for x in r)
